@@ -144,3 +144,56 @@ if __name__ == '__main__':
         if o.status != 'discharged':
             print(o.id, o.site, o.detail)
     print(len(obligations()), 'call sites')
+
+
+def ctor_obligations():
+    """every `EoN.Simulation_Investigation(...)` call in simulation.py binds, on the constructor's CURRENT signature,
+    G to the contact network, node_history to the local of that name and transmissions to the recorded list
+    (Gillespie_complex_contagion has no single-neighbour transmissions by design and is the only allowed omission)"""
+    src, tree = Source.get('EoN/simulation.py')
+    isrc, itree = Source.get('EoN/simulation_investigation.py')
+    init = None
+    for n in itree.body:
+        if isinstance(n, ast.ClassDef) and n.name == 'Simulation_Investigation':
+            for m in n.body:
+                if isinstance(m, ast.FunctionDef) and m.name == '__init__':
+                    init = m
+    out = []
+    if init is None:
+        return [Ob('ctor-binding:Simulation_Investigation', 'EoN/simulation_investigation.py:Simulation_Investigation.__init__', 'binding', 'undecided',
+                   'delegation-binding analysis', 0.0, replay_note='constructor not found')]
+    pos = [a.arg for a in init.args.args][1:]
+    for fn in [n for n in tree.body if isinstance(n, ast.FunctionDef)]:
+        k = 0
+        for call in [c for c in ast.walk(fn) if isinstance(c, ast.Call) and ast.unparse(c.func) in ('EoN.Simulation_Investigation', 'Simulation_Investigation')]:
+            bind = {}
+            probs = []
+            for i, a in enumerate(call.args):
+                if i < len(pos):
+                    bind[pos[i]] = a
+                else:
+                    probs.append('too many positional arguments')
+            for kw in call.keywords:
+                if kw.arg is None:
+                    continue
+                if kw.arg in bind:
+                    probs.append('%s bound twice' % kw.arg)
+                if kw.arg not in pos:
+                    probs.append('unknown keyword %s' % kw.arg)
+                bind[kw.arg] = kw.value
+            want = {'G': ('G', 'H'), 'node_history': ('node_history',), 'transmissions': ('transmissions',)}
+            for p, names in want.items():
+                if p not in bind:
+                    if p == 'transmissions' and fn.name == 'Gillespie_complex_contagion':
+                        continue
+                    probs.append('constructor parameter %s is not supplied' % p)
+                elif not (isinstance(bind[p], ast.Name) and bind[p].id in names):
+                    probs.append('constructor parameter %s receives `%s`' % (p, ast.unparse(bind[p])))
+            if 'possible_statuses' not in bind:
+                probs.append('possible_statuses not supplied')
+            out.append(Ob('ctor-binding:%s#%d' % (fn.name, k), 'EoN/simulation.py:%s' % fn.name, 'binding', 'refuted' if probs else 'discharged',
+                          backend='delegation-binding analysis over the AST (all inputs)', seconds=0.0, detail='; '.join(probs),
+                          site='EoN/simulation.py:%s line %d' % (fn.name, call.lineno), witness=dict(call=ast.unparse(call)[:200], problems=probs) if probs else None,
+                          engine='E2', replay_note='flow analysis: %s' % ('; '.join(probs) or 'binds as contracted')))
+            k += 1
+    return out
